@@ -154,7 +154,8 @@ def gen_valid_doc(rng):
                                for b in addrs if rng.random() < 0.4}
         if a in sens_vals:
             if rng.random() < 0.3:
-                cfg["value"] = sens_vals[a]
+                # the declared value, or one `math.isclose` to it
+                cfg["value"] = sens_vals[a] if rng.random() < 0.7 else float(sens_vals[a]) * (1 + 1e-12)
         elif rng.random() < 0.5:
             cfg["value"] = rng.choice([0, 1, -5, 3, 0.25, -100, 2.5])
         hc[key(*a)] = cfg
@@ -372,7 +373,7 @@ def catalogue():
         k = next(iter(d["sensitive_hosts"]))
         s, h = eval(k)
         v = d["sensitive_hosts"][k]
-        d["host_configurations"][f"({s}, {h})"]["value"] = r.choice([v + 1, v * 2, -v, 0])
+        d["host_configurations"][f"({s}, {h})"]["value"] = r.choice([v + 1, v * 2, -v, 0, float(v) * (1 + 1e-6)])
 
     def req_fw_keys(d):
         t = d["topology"]
